@@ -322,7 +322,9 @@ class DPSKDemodulator(BaseDemodulator):
                 min_dist_1 = self._min_distance_to_points(z, const_bit_1, effective_noise_var)
 
                 # Calculate LLR: log(P(bit=0)/P(bit=1))
-                llrs[..., bit_idx] = min_dist_1 - min_dist_0
+                # _min_distance_to_points returns the negated, scaled minimum squared distance, so
+                # log P(bit=0)/P(bit=1) ~ (D1 - D0) / noise_var is the bit-0 term minus the bit-1 term
+                llrs[..., bit_idx] = min_dist_0 - min_dist_1
 
             return llrs.reshape(*batch_shape, -1)
 
